@@ -22,6 +22,15 @@ pub struct Obs {
     /// C14: number of `read` calls made on stdin AFTER the output already held `--take` rows
     /// (rows = line feeds on stdout; only meaningful for one-line JSON output without header)
     pub late_reads: usize,
+    /// bytes this process read through the operating system while `go` ran (input FILES; the in-process stdin makes no system call)
+    pub file_read: usize,
+}
+
+/// `rchar` of /proc/self/io: bytes this process has asked the operating system to read so far
+pub fn proc_rchar() -> usize {
+    std::fs::read_to_string("/proc/self/io").ok()
+        .and_then(|t| t.lines().find_map(|l| l.strip_prefix("rchar: ").and_then(|v| v.trim().parse().ok())))
+        .unwrap_or(0)
 }
 
 pub struct FaultyWriter {
@@ -33,8 +42,12 @@ impl Write for FaultyWriter {
     fn write(&mut self, data: &[u8]) -> std::io::Result<usize> {
         match self.room {
             None => {
-                self.buf.lock().unwrap().extend_from_slice(data);
-                Ok(data.len())
+                // a healthy writer may accept only PART of what it is offered (pipes, terminals, the line-buffered standard output of a
+                // process do): `write_all` copes with that, a bare `write` that ignores the count loses the rest
+                let mut b = self.buf.lock().unwrap();
+                let n = if data.len() >= 2 && (b.len() + data.len()) % 3 == 0 { (data.len() + 1) / 2 } else { data.len() };
+                b.extend_from_slice(&data[..n]);
+                Ok(n)
             }
             // the kind of the failure varies with the offset (a full disk, a closed pipe, a quota …): every kind is a failure
             Some(0) => {
@@ -239,8 +252,10 @@ pub fn run_rust(case: &Case, scratch: &Scratch) -> Obs {
             late_reads: late2.clone(),
         }
     });
+    let rchar0 = proc_rchar();
     let result = catch_unwind(AssertUnwindSafe(|| jawk::go(cli, out.clone(), err.clone(), factory)));
     let mut obs = Obs::default();
+    obs.file_read = proc_rchar().saturating_sub(rchar0);
     match result {
         Ok(Ok(())) => obs.res = "ok".into(),
         Ok(Err(e)) => obs.res = classify_error(&format!("{:?}", e)),
